@@ -156,17 +156,45 @@ let has_copy (sc : scase) : bool =
   List.exists (fun (_, r) -> match r with
     | POk ss -> List.exists (fun s -> List.exists (function HCopyIn _ | HCopyRead -> true | _ -> false) s.s_prog) ss
     | PErr _ -> false) sc.sc_parse
+(* a client stream delivered in any segmentation (also all in one write) whose messages are all complete (within the
+   limit, or oversized and present in full) and that sends no Terminate: every Sync within the limit is answered by
+   its ReadyForQuery — a rejected message is skipped in exactly its declared length and what follows it is served *)
+let syncs_answered (sc : scase) (il : ev list) : bool =
+  if sc.sc_auth <> None || sc.sc_tls then true else
+  match untyped sc.sc_limit sc.sc_raw with
+  | Some (_, rest) ->
+      let (fs, _) = frames sc.sc_limit rest in
+      let tb t = int_of_byte t in
+      let complete = List.for_all (function FMsg (t, _) -> tb t <> 88 | FOver (_, _, None) | FBad _ -> true | _ -> false) fs in
+      let syncs = List.length (List.filter (function FMsg (t, _) -> tb t = 83 | _ -> false) fs) in
+      let readies = List.length (List.filter (function Out (BReady _) -> true | _ -> false) il) in
+      (not complete) || readies >= 1 + syncs
+  | None -> true
 let check_C10 fields =
   if field_opt "tlsobs" fields <> None then check_C10_tls fields else
   (* configurations with COPY handlers are outside [oracle_C10] (its model theorem assumes none): the oversized
      messages inside a COPY are judged by the COPY oracles *)
   if has_copy (case_of fields) then check_C13 fields else
   (* lock-step cases: the per-message discipline; all cases: a startup packet within the limit is served *)
-  check_with false (fun sc log -> if is_lock fields then oracle_C10 sc log else startup_served sc log) fields
+  check_with false (fun sc log -> if is_lock fields then oracle_C10 sc log else startup_served sc log && syncs_answered sc log) fields
 let check_C19 fields =
+  if field_opt "tlsobs" fields <> None then P_c11.check fields else
+  if field_opt "serverclosed" fields <> None then begin
+    (* the server had been closed before this connection was served: the lifecycle oracle alone (the model knows no
+       shutdown); whether commands are still admitted belongs to C16 *)
+    let r = run_sess fields in
+    match r.impl with
+    | None -> (OracleFail "implementation output is not a well-formed backend message stream", None)
+    | Some il ->
+        if oracle_C19 r.case_ il then (Ok_, None)
+        else (OracleFail (Printf.sprintf "a closing server: the lifecycle oracle rejects the observed log (middlewares run once, in order, before the first ReadyForQuery; a failing one ends the connection)\n    impl:  %s" (show_log il)), None)
+  end else
   (* lock-step cases are also judged by the per-message discipline (Terminate rule) *)
   check_with false (fun sc log -> oracle_C19 sc log && (not (is_lock fields) || oracle_turns sc log)) fields
-let check_C02 = check_with false (fun _ _ -> true)   (* the oracle is the strict grammar itself: an unparsable output is an oracle failure *)
+let check_C02 fields =
+  (* sessions behind an SSLRequest with a completed handshake: the secure stream is judged as the C11 transcript is *)
+  if field_opt "tlsobs" fields <> None then P_c11.check fields else
+  check_with false (fun _ _ -> true) fields   (* the oracle is the strict grammar itself: an unparsable output is an oracle failure *)
 (* every ParameterDescription announces exactly the declared parameter types of a configured statement *)
 let paramdesc_from_config (sc : scase) (il : ev list) : bool =
   let stmts = List.concat_map (fun (_, r) -> match r with POk ss -> ss | PErr _ -> []) sc.sc_parse in
@@ -177,7 +205,37 @@ let paramdesc_from_config (sc : scase) (il : ev list) : bool =
     | _ -> true) il
 (* several connections on one server: each is judged on its own (the reply discipline, and the validator is asked
    about this connection's own database, user and password) *)
-let check_C15 = check_with true (fun sc log -> oracle_turns sc log && (sc.sc_auth = None || oracle_C01 sc log) && paramdesc_from_config sc log)
+let alone_first : (string, string) Hashtbl.t = Hashtbl.create 256
+let check_C15 (fields : sexp list) : verdict * string option =
+  if field_opt "tlsobs" fields <> None then P_c11.check fields else
+  let (v, cross) = check_with true (fun sc log -> oracle_turns sc log && (sc.sc_auth = None || oracle_C01 sc log) && paramdesc_from_config sc log) fields in
+  match v with
+  | OracleFail _ -> (v, cross)
+  | _ ->
+      (* the connection served next to others (id G.k) and the same traffic served alone by a server of its own
+         (id G.k.alone): the same transcript and callback trace (ParameterStatus blocks compared as sets) *)
+      let r = run_sess fields in
+      let id = !cur_id in
+      let suffix = ".alone" in
+      let n = String.length id and m = String.length suffix in
+      let group = if n > m && String.sub id (n - m) m = suffix then String.sub id 0 (n - m) else id in
+      let canon (l : ev list) : string =
+        let rec go acc blk = function
+          | (Out (BParamStatus _) as e) :: r -> go acc (show_ev e :: blk) r
+          | e :: r -> go (show_ev e :: (List.rev (List.sort compare blk)) @ acc) [] r
+          | [] -> List.rev ((List.rev (List.sort compare blk)) @ acc) in
+        String.concat " " (go [] [] l) in
+      (match r.impl with
+       | None -> (v, cross)
+       | Some l ->
+           let log = canon l in
+           (match Hashtbl.find_opt alone_first group with
+            | None -> Hashtbl.replace alone_first group log; (v, cross)
+            | Some first ->
+                if first <> log then
+                  (OracleFail (Printf.sprintf "a connection served next to other connections has another transcript than the same client traffic served alone\n    %s: %s\n    other: %s"
+                                 (if group = id then "next to others" else "alone") log first), cross)
+                else (v, cross)))
 
 (* C03: the variants of one byte stream (ids <n>.v<k>) must produce the identical log *)
 let seg_first : (string, string) Hashtbl.t = Hashtbl.create 1024
@@ -189,7 +247,8 @@ let check_C03 (fields : sexp list) : verdict * string option =
   | _ ->
       let r = run_sess fields in
       let id = !cur_id in
-      let group = (try String.sub id 0 (String.index id '.') with Not_found -> id) in
+      (* variants of one stream are named <group>.v<k>; any other id stands for itself *)
+      let group = (try let i = String.index id '.' in if i + 1 < String.length id && id.[i + 1] = 'v' then String.sub id 0 i else id with Not_found -> id) in
       (* Go map iteration order is unspecified: ParameterStatus blocks are compared as sets *)
       let canon (l : ev list) : string =
         let rec go acc blk = function
